@@ -72,7 +72,7 @@ def check_src(run: common.Run, src: str, binds: Dict[str, Any], case: dict, repo
             cel.evaluate(ir.render(ch), binds, "I")[0] == "error" for ch in localize.closed_children(cul)
         ):
             tag = "-error-operand"
-        elif any(x[0] == "raw" and "{" in x[1] and not x[1].lstrip().startswith("{") for x in ir.walk(cul)):
+        elif any(x[0] == "msg" for x in ir.walk(cul)):
             tag = "-message-literal"
         if cul[0] == "has" and m == "class-differs":
             key = "IC-has-class-differs"
